@@ -24,6 +24,10 @@ func TestFamily(t *testing.T) {
 	switch fam {
 	case "timer":
 		scs = timerScenarios(behs, seed, EnvInt("VERIF_NRANDOM", 200))
+	case "beat":
+		scs = beatScenarios(seed, EnvInt("VERIF_NRANDOM", 40))
+	case "flow", "life", "upg", "poll":
+		scs = append(replayFamily(behs), scriptFamily(fam, seed, EnvInt("VERIF_NRANDOM", 40))...)
 	case "cont":
 		runtime.GOMAXPROCS(4)
 		scs = contScenarios(behs, seed, EnvInt("VERIF_NRANDOM", 60))
@@ -38,7 +42,7 @@ func TestFamily(t *testing.T) {
 		t.Fatalf("unknown family %q", fam)
 	}
 	from := EnvInt("VERIF_FROM", 0)
-	budget := time.Duration(EnvInt("VERIF_WALL_S", 20)) * time.Second
+	budget := time.Duration(EnvInt("VERIF_WALL_S", 8)) * time.Second
 	for i, sc := range scs {
 		if i < from {
 			continue
